@@ -137,6 +137,19 @@ pub fn cfg_parse(v: &Value) -> NodeCfg {
 }
 
 pub fn replay(v: &Value) -> i32 {
+    if v["report_tag"] == "C05" {
+        let c = &v["cfg"];
+        let cfg = super::c17::Cfg { v6_peers: c["v6_peers"].as_bool().unwrap_or(false), node_v6: c["node_v6"].as_bool().unwrap_or(false), k: c["k"].as_u64().unwrap_or(0) as usize, table: c["table"].as_u64().unwrap_or(0) as usize, all_tid_lengths: true };
+        let (_, f, _) = super::c17::run_one(&cfg, v["rng_seed"].as_u64().unwrap_or(1));
+        let mut code = 0;
+        for (tag, sig, what) in &f.items {
+            if *tag == "C05" {
+                println!("VIOLATION {sig}: {what}");
+                code = 1;
+            }
+        }
+        return code;
+    }
     if v["collision"] == true {
         let (res, f) = collision_run(v["v6"].as_bool().unwrap_or(false), v["rng_seed"].as_u64().unwrap_or(1));
         let node = single::node_addr(v["v6"].as_bool().unwrap_or(false));
@@ -205,6 +218,31 @@ pub fn collision_run(v6: bool, rng_seed: u64) -> (sim::RunResult, single::Findin
 pub fn run(tier: Tier) -> Report {
     let mut rep = Report::new("C05", "model_checking", tier);
     let seed = 1 + seed();
+    // crowded info-hash: the reply has to be cut down to fit a datagram, and must still be sent
+    {
+        let mut heavy: Vec<super::c17::Cfg> = vec![];
+        for k in tier.pick(vec![150usize, 200], vec![146, 150, 177, 200, 300, 500]) {
+            for v6 in [false, true] {
+                for table in [0usize, 9] {
+                    heavy.push(super::c17::Cfg { v6_peers: v6, node_v6: v6, k, table, all_tid_lengths: true });
+                }
+            }
+        }
+        let outs = par_map(&heavy, |_, cfg| {
+            let (res, f, _) = super::c17::run_one(cfg, seed);
+            (res.wire.len() as u64, f)
+        });
+        for (cfg, (wire, f)) in heavy.iter().zip(outs.iter()) {
+            rep.add("transitions", *wire);
+            rep.add("replies_checked", f.replies_checked);
+            rep.add("crowded_store_runs", 1);
+            for (tag, sig, what) in &f.items {
+                if *tag == "C05" {
+                    rep.violation(format!("crowded-store {sig}"), format!("{what} [{:?}]", cfg), json!({"engine":"E1","check":"C17","cfg":{"v6_peers":cfg.v6_peers,"node_v6":cfg.node_v6,"k":cfg.k,"table":cfg.table,"all_tid_lengths":true},"rng_seed":seed,"report_tag":"C05"}));
+                }
+            }
+        }
+    }
     for v6 in [false, true] {
         let (res, f) = collision_run(v6, seed);
         rep.add("transitions", res.wire.len() as u64);
